@@ -25,7 +25,7 @@ type c18S struct {
 // stateful lexer with a three-style String rule
 var c18Lex = lexer.MustSimple([]lexer.SimpleRule{
 	{Name: "String", Pattern: "\"(?:\\\\.|[^\"\\\\])*\"|'(?:\\\\.|[^'\\\\])*'|`[^`]*`"},
-	{Name: "Ident", Pattern: `[a-zA-Z_][a-zA-Z0-9_]*`},
+	{Name: "Ident", Pattern: `[\p{L}_][\p{L}\p{N}_]*`},
 	{Name: "Num", Pattern: `[0-9]+`},
 	{Name: "WS", Pattern: `\s+`},
 	{Name: "Punct", Pattern: `[-+;,]`},
@@ -106,7 +106,7 @@ func c18Child(c *mon.Child) {
 		if utf8.ValidString(s) && utf8.RuneCountInString(s) == 1 {
 			forms = append(forms, form{"single-quoted-char/default-lexer", strconv.QuoteRune([]rune(s)[0]), "def"})
 		}
-		for _, f := range forms {
+		for fi, f := range forms {
 			c.Eval(1)
 			input := "pre " + f.lit + " post"
 			var got []string
@@ -115,19 +115,19 @@ func c18Child(c *mon.Child) {
 				switch f.parser {
 				case "def":
 					var g *c18G
-					g, perr = pDef.ParseString("q.txt", input)
+					g, perr = c18Via(pDef, fi, input)
 					if g != nil {
 						got = g.V
 					}
 				case "default":
 					var g *c18G
-					g, perr = pDefault.ParseString("q.txt", input)
+					g, perr = c18Via(pDefault, fi, input)
 					if g != nil {
 						got = g.V
 					}
 				default:
 					var g *c18S
-					g, perr = pSt.ParseString("q.txt", input)
+					g, perr = c18Via(pSt, fi, input)
 					if g != nil {
 						got = g.V
 					}
@@ -206,7 +206,7 @@ func c18Child(c *mon.Child) {
 	c18Retype(c)
 	// Upper and Map: exactly the selected types, positions untouched, each token once, in order, before elision.
 	nm := c.N(3000, 20000)
-	words := []string{"abc", "Hello", "x1", "ünï", "12", "7", `"q s"`, "'c'", "`r`", "-", ";", ","}
+	words := []string{"abc", "Hello", "x1", "ünï", "éü", "привет_1", "ñ2", "ǆ", "ß", "ÀB", "12", "7", `"q s"`, "'c'", "`r`", "-", ";", ","}
 	typeSets := [][]string{{"Ident"}, {"Num"}, {"Ident", "Num"}, {"String"}, {"WS"}, {}, {"Punct", "Ident"}}
 	for i := 0; i < nm; i++ {
 		key := fmt.Sprintf("m%d", i)
@@ -269,7 +269,14 @@ func c18Child(c *mon.Child) {
 			continue
 		}
 		log = nil
-		_, _ = pm.ParseString("m.txt", input)
+		switch i % 3 { // the mappers sit behind every entry point
+		case 0:
+			_, _ = pm.ParseString("m.txt", input)
+		case 1:
+			_, _ = pm.ParseBytes("m.txt", []byte(input))
+		default:
+			_, _ = pm.Parse("m.txt", strings.NewReader(input))
+		}
 		var want []lexer.Token
 		for _, t := range raw {
 			if t.Type == lexer.EOF {
@@ -443,11 +450,22 @@ func mustLex(l lexer.Lexer, err error) lexer.Lexer {
 func init() {
 	Register(&mon.Spec{
 		ID:          "C18",
-		Rule:        "case = string s over an alphabet of quotes of all three styles, backslashes, literal backslash-n, newlines, tabs, CR, NUL, non-ASCII, astral runes, U+2028 and invalid UTF-8 bytes. Parsing strconv.Quote(s), s between back-quotes when strconv.CanBackquote(s), and the single-quoted form must capture exactly s, through the default text/scanner lexer (String/RawString/Char) and through a stateful lexer with a three-style String rule; invalid escapes must give a located participle.Error. Upper(types): Parser.Lex compared token by token with the raw definition's stream (selected types upper-cased, everything else and all positions equal). Map(f, types): f's call log must be the non-EOF tokens of the selected types, once each, in stream order, elided tokens included. Non-trivial: s contains a quote, backslash, newline or invalid UTF-8 / a mapped stream of >=3 tokens. Distinct by s / (types, input).",
+		Rule:        "case = string s over an alphabet of quotes of all three styles, backslashes, literal backslash-n, newlines, tabs, CR, NUL, non-ASCII, astral runes, U+2028 and invalid UTF-8 bytes. Parsing strconv.Quote(s), s between back-quotes when strconv.CanBackquote(s), and the single-quoted form must capture exactly s, through the default text/scanner lexer (String/RawString/Char) and through a stateful lexer with a three-style String rule; invalid escapes must give a located participle.Error. Upper(types): Parser.Lex compared token by token with the raw definition's stream (selected types upper-cased, everything else and all positions equal). Map(f, types): f's call log must be the non-EOF tokens of the selected types, once each, in stream order, elided tokens included. Non-trivial: s contains a quote, backslash, newline or invalid UTF-8 / a mapped stream of >=3 tokens. Distinct by s / (types, input). Parses rotate over ParseString, ParseBytes and Parse(reader); identifiers include words whose lower-case letters are all non-ASCII.",
 		Assumptions: []string{"the expected value of a single-quoted literal follows strconv's escape rules with ' escaped and \" bare"},
 		Batches:     func(t string) int { return 1 },
 		Floor:       func(t string) int { return pick(t, 3000, 20000) },
 		TimeoutSec:  func(t string) int { return pick(t, 120, 1800) },
 		Child:       c18Child,
 	})
+}
+
+// c18Via parses through one of the three entry points (the token mappers sit behind all of them).
+func c18Via[G any](p *participle.Parser[G], which int, input string) (*G, error) {
+	switch which % 3 {
+	case 1:
+		return p.ParseBytes("q.txt", []byte(input))
+	case 2:
+		return p.Parse("q.txt", strings.NewReader(input))
+	}
+	return p.ParseString("q.txt", input)
 }
